@@ -32,8 +32,8 @@ def build_traces(path, tier, seed):
         add({"kind": "rel", "law": "lin", "clause": clause, "tol": enc(tol), "scale": enc(scale), "f": enc(f), "g": enc(g),
              "x": enc_seq(np.ravel(x)), "y": enc_seq(np.ravel(y)), "z": enc_seq(np.ravel(z))}, dict(m, law=clause))
 
-    nev = 30 if tier == "quick" else 400
-    nmax = 300 if tier == "quick" else 2000
+    nev = 30 if tier == "quick" else 120
+    nmax = 300 if tier == "quick" else 800
     for i in range(nev):
         n = gen.length(rng, 3, nmax)
         dt = gen.dt(rng)
